@@ -780,7 +780,9 @@ impl TypeAggregator {
 
         if let Some(name) = self.types[remapped].id.as_ref() {
             let prev = self.interfaces.insert(name.clone(), remapped);
-            assert!(prev.is_none());
+            if prev.is_some() {
+                bail!("interface `{name}` contains an interface with the same identifier");
+            }
         }
 
         Ok(remapped)
